@@ -306,7 +306,10 @@ def _weak_child(conn, spec, L, shots, noise, basis_state):
         sp = WeakSimParams(shots=shots, show_progress=False)
         nm = None
         if noise:
-            nm = NoiseModel([{"name": noise[0], "sites": [i], "strength": noise[1]} for i in range(L)])
+            procs = [{"name": noise[0], "sites": [i], "strength": noise[1]} for i in range(L)]
+            if len(noise) > 2 and noise[2] == "mixed":   # one zero-strength process among non-zero ones: still a noisy run
+                procs.insert(0, {"name": "pauli_z", "sites": [0], "strength": 0.0})
+            nm = NoiseModel(procs)
         state = MPS(L, state="basis", basis_string=basis_state) if basis_state else MPS(L, state="zeros")
         simulator.run(state, qc, sp, nm, parallel=False)
         conn.send({"results": {int(k): int(v) for k, v in sp.results.items()}, "shots_after": int(sp.shots)})
@@ -478,6 +481,9 @@ def gen(rng, tier):
                "sub": rng.randrange(1 << 30)}
     yield {"kind": "weak-seq", "L": 2, "circuit": random_circuit(rng, 2), "shots": rng.choice([3, 6]),
            "noises": rng.choice([[["pauli_x", 0.2], None], [None, ["pauli_z", 0.1], None], [None, None]])}
+    yield {"kind": "weak", "L": 2, "circuit": random_circuit(rng, 2), "shots": 5, "noise": ["pauli_x", 0.2, "mixed"], "basis_state": None}
+    for b, st in (("X", "x+"), ("X", "x-"), ("Y", "y+"), ("Y", "y-"), ("Z", "ones")):
+        yield {"kind": "shots1", "L": rng.choice([1, 2, 3]), "basis": b, "state": st}
     # a noise model whose strengths are all zero is the noise-free policy (one trajectory, `shots` samples) in every layer
     yield {"kind": "weak", "L": 2, "circuit": random_circuit(rng, 2), "shots": 6, "noise": ["pauli_x", 0.0], "basis_state": None}
     for i in range(n_weak):
@@ -489,8 +495,26 @@ def gen(rng, tier):
                "noise": noise, "basis_state": None if rng.random() < 0.7 else "".join(rng.choice("01") for _ in range(L))}
 
 
+def run_shots1(inp):
+    """measure_shots(1, basis): the single-shot path must sample in the requested basis (product eigenstates: one certain key)"""
+    L, basis, st = inp["L"], inp["basis"], inp["state"]
+    want = {"x+": 0, "y+": 0, "x-": 2**L - 1, "y-": 2**L - 1, "ones": 2**L - 1}[st]
+    probs, seen = [], {}
+    for shots in (1, 1, 1, 4):
+        res = MPS(L, state=st).measure_shots(shots, basis=basis)
+        seen[shots] = dict(res)
+        if sum(res.values()) != shots:
+            probs.append(f"measure_shots({shots}, basis={basis}) returned {sum(res.values())} outcomes")
+        if set(res) != {want}:
+            probs.append(f"measure_shots({shots}, basis={basis}) on the {st} product state of {L} sites returned {dict(res)}; the only outcome of non-zero Born probability is {want}")
+    return {"req": None, "impl": None, "kind": "shots1", "oracle": {"ok": not probs, "detail": "; ".join(probs[:2]) or str(seen)},
+            "sig": f"shots1:{L}:{basis}:{st}", "nontrivial": True}
+
+
 def run(inp):
     k = inp["kind"]
+    if k == "shots1":
+        return run_shots1(inp)
     if k == "shot":
         return run_shot(inp)
     if k == "measure":
